@@ -313,12 +313,22 @@ func c14r1(c *Check) {
 			if !ok {
 				// the reviewed site may have moved into a helper method that the reviewed function calls
 				// (same type, same operand): the reason given for the function covers its helpers
+				// inside a helper the operand may be rooted in a parameter (m.buf) where the reviewed function
+				// had a local of the same type (aggregator.msg.buf): compare by type as well
+				altWhat := s.What
+				if s.Val != nil {
+					altWhat = strings.Replace(s.What, describeVal(s.Val), describeValTyped(s.Val), 1)
+				}
 				for k2, r2 := range reviewedSites {
 					rest := strings.TrimPrefix(k2, s.Class+" ")
-					if rest == k2 || !strings.HasSuffix(rest, " "+s.What) {
+					what := s.What
+					if rest != k2 && !strings.HasSuffix(rest, " "+what) && strings.HasSuffix(rest, " "+altWhat) {
+						what = altWhat
+					}
+					if rest == k2 || !strings.HasSuffix(rest, " "+what) {
 						continue
 					}
-					owner := funcByStableName[strings.TrimSuffix(rest, " "+s.What)]
+					owner := funcByStableName[strings.TrimSuffix(rest, " "+what)]
 					if owner == nil {
 						continue
 					}
@@ -1032,6 +1042,44 @@ func c14r2(c *Check) {
 					}
 					return
 				}
+				// the constructor comes out of a registry table indexed by the route type: the entry that holds
+				// NewConsistentHashing gives the minimum the destination count is compared with
+				if call.Call.StaticCallee() == nil && !call.Call.IsInvoke() && len(call.Call.Args) >= 3 {
+					if ents, fld, _, ok := globalStructMapLookup(c.P, call.Call.Value); ok {
+						for _, fields := range ents {
+							f := resolveFuncValue(fields[fld])
+							if f == nil || funcCanonical(f) != nCH {
+								continue
+							}
+							nSites++
+							// the guard: len(dests) < entry.<min> with <min> >= 1 in this entry
+							for _, b := range fn.Blocks {
+								ifi, ok := b.Instrs[len(b.Instrs)-1].(*ssa.If)
+								if !ok {
+									continue
+								}
+								bo, ok := ifi.Cond.(*ssa.BinOp)
+								if !ok || !isLenOf(bo.X, call.Call.Args[2]) {
+									continue
+								}
+								_, mfld, _, ok := globalStructMapLookup(c.P, bo.Y)
+								if !ok {
+									continue
+								}
+								k, ok := constInt(fields[mfld])
+								if !ok {
+									continue
+								}
+								for si := 0; si < 2; si++ {
+									if edgeEstablishes(bo.Op, k, true, si == 0, needPos, false) && edgeDominates(b, b.Succs[si], call.Block()) {
+										nGuarded++
+									}
+								}
+							}
+						}
+						return
+					}
+				}
 				// a helper that is handed the constructor
 				g := call.Call.StaticCallee()
 				if g == nil || g.Blocks == nil || !ModuleFunc(g) {
@@ -1568,8 +1616,26 @@ func minDestsGuard(p *Prog, entry *ssa.Function) bool {
 				acc = 1
 			}
 			okApp, nApp := true, 0
+			hasAppend := func(g *ssa.Function) bool {
+				found := false
+				allInstrs(g, func(in ssa.Instruction) {
+					if _, ok := isBuiltinCall(in, "append"); ok {
+						found = true
+					}
+				})
+				return found
+			}
 			allInstrs(fn, func(in ssa.Instruction) {
-				if _, ok := isBuiltinCall(in, "append"); ok {
+				_, isApp := isBuiltinCall(in, "append")
+				if !isApp {
+					// the removal may be written in a helper of the package (withoutDest(dests, index))
+					if call, ok := in.(*ssa.Call); ok {
+						if g := call.Call.StaticCallee(); g != nil && g.Blocks != nil && fnPkg(g) == fnPkg(fn) && g != fn && hasAppend(g) {
+							isApp = true
+						}
+					}
+				}
+				if isApp {
 					nApp++
 					if !edgeDominates(b, b.Succs[acc], in.Block()) {
 						okApp = false
